@@ -5,7 +5,7 @@ D1 == {<<0,0,0,0>>, <<0,0,0,1>>, <<10,11,12,13>>, <<127,255,255,255>>, <<128,0,0
 D23 == {<<0,0>>, <<0,1>>, <<0,255>>, <<255,0>>, <<18,52>>, <<255,255>>, <<10,76>>}
 D4a == {<<0,0>>, <<170,13>>, <<255,0>>, <<64,5>>, <<192,0>>, <<201,10>>, <<223,255>>}      \* first byte in every "variant" range of RFC 4122 (0xxx, 10xx, 110x, 111x): the EFI layout does not care
 D4b == {<<0,0,0,0,0,0>>, <<0,224,152,3,43,140>>, <<255,255,255,255,255,255>>, <<1,2,3,4,5,6>>}
-Cps == {65, 127, 128, 255, 256, 511, 2047, 2048, 19968, 32896, 55295, 57344, 65280, 65281, 65535, 65536, 128512, 1114111}   \* 0x01ff, 0x8080, 0xff01: code units whose two bytes add up to 0x100
+Cps == {65, 127, 128, 255, 256, 511, 2047, 2048, 19968, 32896, 55295, 57344, 65279, 65280, 65281, 65534, 65535, 65536, 128512, 1114111}   \* 0x01ff, 0x8080, 0xff01: code units whose two bytes add up to 0x100
 Strs == {<<>>} \cup {<<a>> : a \in Cps} \cup {<<a, b>> : a \in Cps, b \in Cps} \cup {<<a, b, c>> : a \in {65, 255, 65536}, b \in Cps, c \in Cps}
 Init == /\ done = FALSE
         /\ \/ kind = "guid" /\ \E a \in D1, b \in D23, c \in D23, d \in D4a, e \in D4b : val = a \o b \o c \o d \o e
